@@ -246,6 +246,8 @@ func EvalReport(ev *Evaluator, g *Graph) *Reported {
 type Checker struct {
 	Drv    *Driver
 	Solver *smt.Solver
+	// LastDeviation: set by Differential when the real pipeline (not the model) departs from the reference
+	LastDeviation *Outcome
 }
 
 func (c *Checker) solve(side []*smt.Term, goal *smt.Term, vars []*smt.Term) (smt.Result, map[string]uint64) {
@@ -844,6 +846,8 @@ func (c *Checker) differential(p Program, sc Scope, code string, rounds int, onl
 	type ob struct {
 		key      string
 		reported *smt.Term
+		expected *smt.Term
+		spec     *smt.Term
 	}
 	var obs []ob
 	var perLevel []Validation
@@ -863,7 +867,7 @@ func (c *Checker) differential(p Program, sc Scope, code string, rounds int, onl
 			}
 			holds, spec := ref.Holds(v.F, i)
 			expected := smt.And(ref.Target(i, v.Class), smt.Not(holds))
-			obs = append(obs, ob{k, reported})
+			obs = append(obs, ob{k, reported, expected, spec})
 			goal = smt.Or(goal, smt.And(spec, smt.Not(smt.Eq(reported, expected))))
 		}
 	}
@@ -922,6 +926,30 @@ func (c *Checker) differential(p Program, sc Scope, code string, rounds int, onl
 		}
 		actual, _, _ := realResults(outs[0].Report, g)
 		if strings.Join(actual, ",") != strings.Join(predicted, ",") {
+			// who is wrong? Where the documentation determines the outcome, the model agrees with the
+			// reference and the real pipeline does not, the real pipeline is: a violation, not a model error
+			inActual := map[string]bool{}
+			for _, a := range actual {
+				inActual[a] = true
+			}
+			var expectedList []string
+			deviates := false
+			for _, o := range obs {
+				exp := evalBool(o.expected, m)
+				if exp {
+					expectedList = append(expectedList, o.key)
+				}
+				if evalBool(o.spec, m) && evalBool(o.reported, m) == exp && inActual[o.key] != exp {
+					deviates = true
+				}
+			}
+			if deviates {
+				sort.Strings(expectedList)
+				c.LastDeviation = &Outcome{Program: DescribeProgram(p), Profile: profile, Data: data, Status: "violation", Label: "C01.verdict-eq-reference",
+					Expected: expectedList, Predicted: predicted, Actual: actual,
+					Detail: fmt.Sprintf("reference (and the model of the policy) expect [%s], the real pipeline reports [%s]", strings.Join(expectedList, " "), strings.Join(actual, " "))}
+				return r, "DEVIATION " + c.LastDeviation.Detail
+			}
 			return r, fmt.Sprintf("MISMATCH predicted=%v actual=%v\n%s", predicted, actual, data)
 		}
 		// block this assignment
